@@ -19,6 +19,7 @@ RULE = (
     "inner loop: all statement runs of all blocks and all compound sub-expressions, options cycle over similar/global_/kind; "
     "non-trivial = accepted extraction of a region that the original run executed and that reads a variable written before it or "
     "writes one read after it (statements) or has >= 2 operands (expressions); distinct by (module hash, region, options)"
+    "; loops with else clauses and directly nested loops; a region holding a break/continue whose loop lies outside it must be refused (checked independently of the data-flow exclusions)"
 )
 ASSUMPTIONS = [
     "expressions are pure and total, so hoisting or re-ordering an evaluation is unobservable; values flowing in/out and control flow are what the output depends on",
